@@ -981,7 +981,7 @@ class ProgGen:
 			return self.pick([n, '1', '7', f'{n} + 1', f'int(len({s_}))'])
 
 		def op() -> list[str]:
-			c = r.randint(0, 36) if self.force_op is None else self.force_op
+			c = r.randint(0, 38) if self.force_op is None else self.force_op
 			v = self.fresh()
 			k = key()
 			if c == 0:
@@ -1061,6 +1061,13 @@ class ProgGen:
 				return [f'\tif {n} >= 0 and {n} + {w} <= int(len({s_})):', f'\t\t{v} = {s_}[{n}:{n} + {w}]', f"\t\t{out}.append(len({v}) * 10 + int({v} == 'a') + int({v} == 'ab') * 2)"]
 			if c == 35:
 				return [f'\tif {n} >= 0 and {n} + 1 <= int(len({xs})):', f'\t\t{v} = {xs}[{n}:{n} + 1]', f'\t\t{out}.append(len({v}) * 100 + {v}[0])']
+			if c == 37:
+				# augmented assignment to an element with a compound right-hand side (Python: target op= (rhs))
+				op, rhs = self.pick([('-=', f'{n} - 1'), ('-=', f'{n} + 2'), ('*=', f'{n} + 1'), ('*=', f'2 - {n}'), ('&=', f'{n} | 1'), ('^=', f'{n} & 6'), ('+=', f'1 if {n} > 1 else 2'), ('-=', f'-{n}')])
+				return [f'\tif len({xs}) > 0:', f'\t\t{xs}[0] {op} {rhs}', f'\t\t{out}.append({xs}[0])']
+			if c == 38:
+				op, rhs = self.pick([('-=', f'{n} - 1'), ('*=', f'{n} + 1'), ('-=', f'3 - {n} - 1'), ('+=', f'{n} if {n} > 0 else -{n}')])
+				return [f'\tif {k} in {d}:', f'\t\t{d}[{k}] {op} {rhs}', f'\t\t{out}.append({d}[{k}])']
 			if c == 36:
 				return [f'\tif {n} >= 0 and {n} <= int(len({s_})):', f'\t\t{v} = {s_}[{n}:]', f'\t\t{out}.append(len({v}))', f'\t\t{v} = {s_}[:{n}]', f'\t\t{out}.append(len({v}))']
 			i2 = self.fresh('i')
